@@ -1000,7 +1000,7 @@ func isSeparator(r rune) bool {
 
 // lookupJSONSpace is used by the onlyJSONWhitespace and trimJSONSpace
 // functions.
-var lookupJSONSpace = [255]uint8{'\t': 1, '\n': 1, '\r': 1, ' ': 1}
+var lookupJSONSpace = [256]uint8{'\t': 1, '\n': 1, '\r': 1, ' ': 1}
 
 // onlyJSONWhitespace reports if s contains only JSON whitespace.
 func onlyJSONWhitespace(s string) bool {
